@@ -171,6 +171,54 @@ def read_case(case):
     return [{"e": "lay", "lay": L, "writer": safe}, obs]
 
 
+def bcj_chunking_check(case):
+    """Isolate the delegated BCJ library (package 'bcj', used for BCJ filters next to LZMA1 and the non-native codecs): log the pieces
+    py7zr hands to each of its decoders while reading the layout, then decode the same bytes with the library ALONE, once in one
+    piece and once in the logged pieces.  A difference between the two is the library's (its output depends on the chunking)."""
+    py7zr = import_py7zr()
+    import py7zr.compressor as C
+    L, seed = case
+    lay, datas = to_layout(L, seed)
+    raw, _ = layouts.write_archive(lay)
+    classes = [getattr(C, n) for n in ("BCJDecoder", "BcjArmDecoder", "BcjArmtDecoder", "BcjPpcDecoder", "BcjSparcDecoder")]
+    logs = []
+    saved = []
+    for cls in classes:
+        oi, od = cls.__init__, cls.decompress
+
+        def init(self, size, _oi=oi, _cls=cls):
+            _oi(self, size)
+            self._vlog = {"cls": _cls.__name__, "size": size, "chunks": []}
+            logs.append(self._vlog)
+
+        def dec(self, data, max_length=-1, _od=od):
+            self._vlog["chunks"].append(bytes(data))
+            return _od(self, data, max_length)
+
+        saved.append((cls, oi, od))
+        cls.__init__, cls.decompress = init, dec
+    try:
+        try:
+            with py7zr.SevenZipFile(io.BytesIO(raw), password=lay.get("password")) as z:
+                z.extractall(factory=py7zr.io.BytesIOFactory(1 << 28))
+        except Exception:  # noqa
+            pass
+    finally:
+        for cls, oi, od in saved:
+            cls.__init__, cls.decompress = oi, od
+    import bcj
+    lib = {"BCJDecoder": bcj.BCJDecoder, "BcjArmDecoder": bcj.ARMDecoder, "BcjArmtDecoder": bcj.ARMTDecoder, "BcjPpcDecoder": bcj.PPCDecoder,
+           "BcjSparcDecoder": bcj.SparcDecoder}
+    for lg in logs:
+        whole = b"".join(lg["chunks"])
+        one = lib[lg["cls"]](lg["size"]).decode(whole)
+        d = lib[lg["cls"]](lg["size"])
+        pieces = b"".join(d.decode(c) for c in lg["chunks"])
+        if one != pieces:
+            return f"{lg['cls']}: decoding {len(whole)} bytes in the pieces {[len(c) for c in lg['chunks']][-6:]} differs from decoding them at once"
+    return "consistent"
+
+
 def classify(tr, l):
     o = tr[1]
     L = tr[0]["lay"]
@@ -271,6 +319,19 @@ def run(tier, rep, ev):
     ev.cov["layouts_from_tlc"] = len(lays)
     ev.cov["layouts_the_reference_writer_could_not_emit"] = skipped
     ev.sample({"layout": traces[len(traces) // 2][0], "observed": traces[len(traces) // 2][1]})
+    # isolate the delegated BCJ library for layouts whose only defect is wrong BYTES of a member behind an alternative BCJ decoder
+    alt = {"bcj", "arm", "armt", "ppc", "sparc"}
+    suspects = [k for k, tr in enumerate(traces) if tr[1].get("ok") and any(not m.get("bytes") for m in tr[1].get("members", []))
+                and any(alt & {c["id"] for c in fo["coders"]} for fo in tr[0].get("writer", {}).get("folders", []))]
+    if suspects:
+        iso = sandbox.run_cases(bcj_chunking_check, [(origins[k]["layout"], origins[k]["seed"]) for k in suspects], timeout=60, nproc=8)
+        drop = set()
+        for k, r in zip(suspects, iso):
+            if r.status == "ok" and r.value != "consistent":
+                rep.violation("delegated-codec:bcj", f"the bcj library alone: {r.value}", {"layout": origins[k]["layout"], "seed": origins[k]["seed"]})
+                drop.add(k)
+        traces = [t for k, t in enumerate(traces) if k not in drop]
+        origins = [t for k, t in enumerate(origins) if k not in drop]
     validate("C06", traces, rep, ev, spec="TraceHeader", cfg="TraceHeader.cfg", classify_fn=classify, origins=origins, batch=3000)
     # ---- third-party fixtures
     fx = list(layouts.fixture_archives())
